@@ -1,10 +1,345 @@
-(* C04 — searches return exactly the matching lines, ordered and de-duplicated. *)
-From Coq Require Import List Arith Bool.
-Require Import CCP.Model.Search CCP.Proofs.C04Proofs.
-Import ListNotations.
+(* C04 — Searches return exactly the matching lines, ordered and de-duplicated.
 
-Theorem C04_find_objects_spec : forall kids rxm r ex ws esc rv,
+   Every theorem is about the executable model Model/Search.v (tied to /repo by the correspondence
+   streams of harness/props/c04.py) and holds for EVERY forest `kids` (children lists of any shape),
+   EVERY regex oracle `rxm mode slot line` and every other oracle; hypotheses appear only where needed:
+     WF kids            children have larger line numbers than their parent and are lines of the config
+     BlankOK kids tru   a line whose object is falsy (empty text) has no children and is nobody's child
+     ShortcutOK .. md r the literal-substring shortcut of BaseCfgLine.re_search is sound for that regex
+     NonEmptyOK .. md r every match of that regex is a non-empty string
+   (all four are re-checked on every real case by Corr/C04.v: hyps_ok; Examples ex_WF / ex_BlankOK in
+   Proofs/C04Proofs.v show a real forest meeting them).
+   Specification vocabulary (Proofs/C04Proofs.v): `chains` = depth-first lexicographic enumeration of the
+   None-padded chains; `is_chain rs ls` = line i+1 is a DIRECT child of line i and line i matches regex i;
+   `padded_from` = shape of a None-padded branch; `Desc` = transitive closure of the child relation;
+   `Below recurse` = direct child (recurse=false) or descendant (recurse=true).
+   mode_of ex ws esc selects the specified reading of exactmatch / ignore_ws / escape_chars.
+
+   Full statement for find_parent_objects_wo_child's LIST form ("the list and two-argument calling forms agree"):
+   refuted by the code (finding F03) — see C04_wo_child_list_refuted; the two-argument form is proved. *)
+From Coq Require Import List Arith Bool Sorting.Sorted.
+Import ListNotations.
+Require Import CCP.Model.Search CCP.Proofs.C04Proofs.
+
+(* ---- line search (find_objects, CiscoConfParse.re_search_children) ---- *)
+Theorem C04_find_objects_spec :
+  forall (kids : list (list nat)) (rxm : nat -> nat -> nat -> bool) (r : nat) (ex ws esc rv : bool),
   find_objects kids rxm r ex ws esc rv =
-  (if rv then @rev nat else (fun l => l)) (filter (rxm (mode_of ex ws esc) r) (seq 0 (length kids))).
+  (if rv then List.rev (A:=nat) else fun l : list nat => l)
+  (List.filter (rxm (mode_of ex ws esc) r) (List.seq 0 (length kids))).
 Proof. exact find_objects_spec. Qed.
 Print Assumptions C04_find_objects_spec.
+
+Theorem C04_find_objects_members :
+  forall (kids : list (list nat)) (rxm : nat -> nat -> nat -> bool) (r : nat)
+  (ex ws esc rv : bool) (l : nat),
+  List.In l (find_objects kids rxm r ex ws esc rv) <->
+  l < length kids /\ rxm (mode_of ex ws esc) r l = true.
+Proof. exact find_objects_members. Qed.
+Print Assumptions C04_find_objects_members.
+
+Theorem C04_find_objects_sorted :
+  forall (kids : list (list nat)) (rxm : nat -> nat -> nat -> bool) (r : nat) (ex ws esc : bool),
+  Sorted.StronglySorted lt (find_objects kids rxm r ex ws esc false).
+Proof. exact find_objects_sorted. Qed.
+Print Assumptions C04_find_objects_sorted.
+
+Theorem C04_find_objects_reverse :
+  forall (kids : list (list nat)) (rxm : nat -> nat -> nat -> bool) (r : nat) (ex ws esc : bool),
+  find_objects kids rxm r ex ws esc true = List.rev (find_objects kids rxm r ex ws esc false).
+Proof. exact find_objects_reverse. Qed.
+Print Assumptions C04_find_objects_reverse.
+
+Theorem C04_find_objects_nodup :
+  forall (kids : list (list nat)) (rxm : nat -> nat -> nat -> bool) (r : nat) (ex ws esc rv : bool),
+  List.NoDup (find_objects kids rxm r ex ws esc rv).
+Proof. exact find_objects_nodup. Qed.
+Print Assumptions C04_find_objects_nodup.
+
+Theorem C04_ccp_re_search_children_spec :
+  forall (kids : list (list nat)) (par : nat -> nat) (rxm : nat -> nat -> nat -> bool)
+  (r : nat) (recurse : bool),
+  ccp_re_search_children kids par rxm r recurse =
+  List.filter (fun l : nat => (rxm 0 r l && (recurse || PeanoNat.Nat.eqb (par l) l))%bool)
+  (List.seq 0 (length kids)).
+Proof. exact ccp_re_search_children_spec. Qed.
+Print Assumptions C04_ccp_re_search_children_spec.
+
+(* ---- branch search (find_object_branches) ---- *)
+Theorem C04_find_object_branches_spec :
+  forall (kids : list (list nat)) (tru : nat -> bool) (rxm : nat -> nat -> nat -> bool)
+  (rs : list nat) (empty rv : bool),
+  find_object_branches kids tru rxm rs empty rv =
+  (if rv then List.rev (A:=list elt) else fun l : list (list elt) => l)
+  ((if empty then fun l : list (list elt) => l else List.filter (List.forallb (elt_truthy tru)))
+  (chains kids rxm rs)).
+Proof. exact find_object_branches_spec. Qed.
+Print Assumptions C04_find_object_branches_spec.
+
+Theorem C04_branches_complete_iff :
+  forall (kids : list (list nat)) (tru : nat -> bool) (rxm : nat -> nat -> nat -> bool),
+  BlankOK kids tru ->
+  forall (rs : list nat) (b : list elt),
+  2 <= length rs ->
+  List.In b (find_object_branches kids tru rxm rs false false) <->
+  (exists ls : list nat, b = List.map Some ls /\ is_chain kids rxm rs ls).
+Proof. exact branches_complete_iff. Qed.
+Print Assumptions C04_branches_complete_iff.
+
+Theorem C04_chains_complete :
+  forall (kids : list (list nat)) (rxm : nat -> nat -> nat -> bool) (rs ls : list nat),
+  List.In (List.map Some ls) (chains kids rxm rs) <-> is_chain kids rxm rs ls.
+Proof. exact chains_complete. Qed.
+Print Assumptions C04_chains_complete.
+
+Theorem C04_branches_padded_length :
+  forall (kids : list (list nat)) (tru : nat -> bool) (rxm : nat -> nat -> nat -> bool)
+  (rs : list nat) (rv : bool) (b : list elt),
+  List.In b (find_object_branches kids tru rxm rs true rv) -> length b = length rs.
+Proof. exact branches_padded_length. Qed.
+Print Assumptions C04_branches_padded_length.
+
+Theorem C04_ext_padded :
+  forall (kids : list (list nat)) (rxm : nat -> nat -> nat -> bool) (rs : list nat)
+  (prev : elt) (b : list elt), List.In b (ext kids rxm rs prev) <-> padded_from kids rxm prev rs b.
+Proof. exact ext_padded. Qed.
+Print Assumptions C04_ext_padded.
+
+(* ---- list forms of find_parent_objects / find_child_objects ---- *)
+Theorem C04_parents_list_single :
+  forall (kids : list (list nat)) (tru : nat -> bool) (rxm : nat -> nat -> nat -> bool) (r : nat),
+  find_parent_objects_list kids tru rxm (r :: nil) = List.filter (rxm 0 r) (List.seq 0 (length kids)).
+Proof. exact parents_list_single. Qed.
+Print Assumptions C04_parents_list_single.
+
+Theorem C04_parents_list_sorted :
+  forall (kids : list (list nat)) (tru : nat -> bool) (rxm : nat -> nat -> nat -> bool) (rs : list nat),
+  Sorted.StronglySorted lt (find_parent_objects_list kids tru rxm rs).
+Proof. exact parents_list_sorted. Qed.
+Print Assumptions C04_parents_list_sorted.
+
+Theorem C04_parents_list_members :
+  forall (kids : list (list nat)) (tru : nat -> bool) (rxm : nat -> nat -> nat -> bool),
+  BlankOK kids tru ->
+  forall (rs : list nat) (x : nat),
+  2 <= length rs ->
+  List.In x (find_parent_objects_list kids tru rxm rs) <->
+  (exists ls : list nat, is_chain kids rxm rs (x :: ls)).
+Proof. exact parents_list_members. Qed.
+Print Assumptions C04_parents_list_members.
+
+Theorem C04_children_list_sorted :
+  forall (kids : list (list nat)) (tru : nat -> bool) (rxm : nat -> nat -> nat -> bool) (rs : list nat),
+  Sorted.StronglySorted lt (find_child_objects_list kids tru rxm rs).
+Proof. exact children_list_sorted. Qed.
+Print Assumptions C04_children_list_sorted.
+
+Theorem C04_children_list_members :
+  forall (kids : list (list nat)) (tru : nat -> bool) (rxm : nat -> nat -> nat -> bool),
+  BlankOK kids tru ->
+  forall (rs : list nat) (x : nat),
+  2 <= length rs ->
+  List.In x (find_child_objects_list kids tru rxm rs) <->
+  (exists ls : list nat, is_chain kids rxm rs (ls ++ x :: nil)).
+Proof. exact children_list_members. Qed.
+Print Assumptions C04_children_list_members.
+
+(* ---- descendants (BaseCfgLine.all_children) ---- *)
+Theorem C04_In_all_children :
+  forall kids : list (list nat),
+  WF kids -> forall p x : nat, List.In x (all_children kids p) <-> Desc kids p x.
+Proof. exact In_all_children. Qed.
+Print Assumptions C04_In_all_children.
+
+Theorem C04_all_children_sorted :
+  forall (kids : list (list nat)) (p : nat), Sorted.StronglySorted le (all_children kids p).
+Proof. exact all_children_sorted. Qed.
+Print Assumptions C04_all_children_sorted.
+
+Theorem C04_Desc_gt :
+  forall kids : list (list nat), WF kids -> forall p x : nat, Desc kids p x -> p < x < nlines kids.
+Proof. exact Desc_gt. Qed.
+Print Assumptions C04_Desc_gt.
+
+(* ---- two-argument forms ---- *)
+Theorem C04_parents_2_spec :
+  forall (kids : list (list nat)) (rxm : nat -> nat -> nat -> bool) (nometa : nat -> nat -> bool)
+  (lit : nat -> nat -> nat -> bool) (p c : nat) (ws recurse esc rv : bool),
+  ShortcutOK rxm nometa lit (mode_of false ws esc) c ->
+  find_parent_objects_2 kids rxm nometa lit p c ws recurse esc rv =
+  List.filter (fun x : nat => List.existsb (rxm (mode_of false ws esc) c) (offspring kids recurse x))
+  (find_objects kids rxm p false ws esc rv).
+Proof. exact parents_2_spec. Qed.
+Print Assumptions C04_parents_2_spec.
+
+Theorem C04_parents_2_members :
+  forall (kids : list (list nat)) (rxm : nat -> nat -> nat -> bool) (nometa : nat -> nat -> bool)
+  (lit : nat -> nat -> nat -> bool),
+  WF kids ->
+  forall (p c : nat) (ws recurse esc rv : bool),
+  ShortcutOK rxm nometa lit (mode_of false ws esc) c ->
+  forall x : nat,
+  List.In x (find_parent_objects_2 kids rxm nometa lit p c ws recurse esc rv) <->
+  x < length kids /\
+  rxm (mode_of false ws esc) p x = true /\
+  (exists y : nat, Below kids recurse x y /\ rxm (mode_of false ws esc) c y = true).
+Proof. exact parents_2_members. Qed.
+Print Assumptions C04_parents_2_members.
+
+Theorem C04_parents_2_sorted :
+  forall (kids : list (list nat)) (rxm : nat -> nat -> nat -> bool) (nometa : nat -> nat -> bool)
+  (lit : nat -> nat -> nat -> bool) (p c : nat) (ws recurse esc : bool),
+  Sorted.StronglySorted lt (find_parent_objects_2 kids rxm nometa lit p c ws recurse esc false).
+Proof. exact parents_2_sorted. Qed.
+Print Assumptions C04_parents_2_sorted.
+
+Theorem C04_parents_2_reverse :
+  forall (kids : list (list nat)) (rxm : nat -> nat -> nat -> bool) (nometa : nat -> nat -> bool)
+  (lit : nat -> nat -> nat -> bool) (p c : nat) (ws recurse esc : bool),
+  find_parent_objects_2 kids rxm nometa lit p c ws recurse esc true =
+  List.rev (find_parent_objects_2 kids rxm nometa lit p c ws recurse esc false).
+Proof. exact parents_2_reverse. Qed.
+Print Assumptions C04_parents_2_reverse.
+
+Theorem C04_wo_child_2_spec :
+  forall (kids : list (list nat)) (rxm : nat -> nat -> nat -> bool) (nometa : nat -> nat -> bool)
+  (lit : nat -> nat -> nat -> bool) (p c : nat) (ws recurse esc rv : bool),
+  ShortcutOK rxm nometa lit (mode_of false ws esc) c ->
+  find_parent_objects_wo_child_2 kids rxm nometa lit p c ws recurse esc rv =
+  List.filter
+  (fun x : nat => negb (List.existsb (rxm (mode_of false ws esc) c) (offspring kids recurse x)))
+  (find_objects kids rxm p false ws esc rv).
+Proof. exact wo_child_2_spec. Qed.
+Print Assumptions C04_wo_child_2_spec.
+
+Theorem C04_wo_child_2_members :
+  forall (kids : list (list nat)) (rxm : nat -> nat -> nat -> bool) (nometa : nat -> nat -> bool)
+  (lit : nat -> nat -> nat -> bool),
+  WF kids ->
+  forall (p c : nat) (ws recurse esc rv : bool),
+  ShortcutOK rxm nometa lit (mode_of false ws esc) c ->
+  forall x : nat,
+  List.In x (find_parent_objects_wo_child_2 kids rxm nometa lit p c ws recurse esc rv) <->
+  x < length kids /\
+  rxm (mode_of false ws esc) p x = true /\
+  ~ (exists y : nat, Below kids recurse x y /\ rxm (mode_of false ws esc) c y = true).
+Proof. exact wo_child_2_members. Qed.
+Print Assumptions C04_wo_child_2_members.
+
+Theorem C04_wo_child_2_sorted :
+  forall (kids : list (list nat)) (rxm : nat -> nat -> nat -> bool) (nometa : nat -> nat -> bool)
+  (lit : nat -> nat -> nat -> bool) (p c : nat) (ws recurse esc : bool),
+  Sorted.StronglySorted lt (find_parent_objects_wo_child_2 kids rxm nometa lit p c ws recurse esc false).
+Proof. exact wo_child_2_sorted. Qed.
+Print Assumptions C04_wo_child_2_sorted.
+
+Theorem C04_wo_child_2_reverse :
+  forall (kids : list (list nat)) (rxm : nat -> nat -> nat -> bool) (nometa : nat -> nat -> bool)
+  (lit : nat -> nat -> nat -> bool) (p c : nat) (ws recurse esc : bool),
+  find_parent_objects_wo_child_2 kids rxm nometa lit p c ws recurse esc true =
+  List.rev (find_parent_objects_wo_child_2 kids rxm nometa lit p c ws recurse esc false).
+Proof. exact wo_child_2_reverse. Qed.
+Print Assumptions C04_wo_child_2_reverse.
+
+Theorem C04_parents_partition :
+  forall (kids : list (list nat)) (rxm : nat -> nat -> nat -> bool) (nometa : nat -> nat -> bool)
+  (lit : nat -> nat -> nat -> bool) (p c : nat) (ws recurse esc : bool) (x : nat),
+  List.In x (find_objects kids rxm p false ws esc false) <->
+  List.In x (find_parent_objects_2 kids rxm nometa lit p c ws recurse esc false) \/
+  List.In x (find_parent_objects_wo_child_2 kids rxm nometa lit p c ws recurse esc false).
+Proof. exact parents_partition. Qed.
+Print Assumptions C04_parents_partition.
+
+Theorem C04_children_2_sorted :
+  forall (kids : list (list nat)) (rxm ne : nat -> nat -> nat -> bool) (p c : nat)
+  (ws recurse esc rv : bool),
+  Sorted.StronglySorted lt (find_child_objects_2 kids rxm ne p c ws recurse esc rv).
+Proof. exact children_2_sorted. Qed.
+Print Assumptions C04_children_2_sorted.
+
+Theorem C04_children_2_members :
+  forall (kids : list (list nat)) (rxm ne : nat -> nat -> nat -> bool),
+  WF kids ->
+  forall (p c : nat) (ws recurse esc rv : bool),
+  NonEmptyOK rxm ne (mode_of false ws esc) c ->
+  forall x : nat,
+  List.In x (find_child_objects_2 kids rxm ne p c ws recurse esc rv) <->
+  rxm (mode_of false ws esc) c x = true /\
+  (exists y : nat, y < length kids /\ rxm (mode_of false ws esc) p y = true /\ Below kids recurse y x).
+Proof. exact children_2_members. Qed.
+Print Assumptions C04_children_2_members.
+
+(* ---- list form of length 2 = two-argument form at recurse=False ---- *)
+Theorem C04_list_eq_2arg_parents :
+  forall (kids : list (list nat)) (tru : nat -> bool) (rxm : nat -> nat -> nat -> bool)
+  (nometa : nat -> nat -> bool) (lit : nat -> nat -> nat -> bool),
+  BlankOK kids tru ->
+  forall p c : nat,
+  ShortcutOK rxm nometa lit 0 c ->
+  find_parent_objects_list kids tru rxm (p :: c :: nil) =
+  find_parent_objects_2 kids rxm nometa lit p c false false false false.
+Proof. exact list_eq_2arg_parents. Qed.
+Print Assumptions C04_list_eq_2arg_parents.
+
+Theorem C04_list_eq_2arg_children :
+  forall (kids : list (list nat)) (tru : nat -> bool) (rxm ne : nat -> nat -> nat -> bool),
+  BlankOK kids tru ->
+  forall p c : nat,
+  NonEmptyOK rxm ne 0 c ->
+  find_child_objects_list kids tru rxm (p :: c :: nil) =
+  find_child_objects_2 kids rxm ne p c false false false false.
+Proof. exact list_eq_2arg_children. Qed.
+Print Assumptions C04_list_eq_2arg_children.
+
+Theorem C04_wo_child_list_refuted :
+  exists
+  (kids : list (list nat)) (rxm : nat -> nat -> nat -> bool) (nometa : nat -> nat -> bool)
+  (lit : nat -> nat -> nat -> bool) (p c : nat) (c2 : option nat),
+  find_parent_objects_wo_child_list_impl kids rxm nometa lit p c2 <>
+  Some (find_parent_objects_wo_child_list kids rxm nometa lit p c).
+Proof. exact wo_child_list_refuted. Qed.
+Print Assumptions C04_wo_child_list_refuted.
+
+Theorem C04_children_2_needs_nonempty :
+  exists (kids : list (list nat)) (tru : nat -> bool) (rxm ne : nat -> nat -> nat -> bool)
+  (p c : nat),
+  find_child_objects_2 kids rxm ne p c false false false false <>
+  find_child_objects_list kids tru rxm (p :: c :: nil).
+Proof. exact children_2_needs_nonempty. Qed.
+Print Assumptions C04_children_2_needs_nonempty.
+
+(* ---- single-line API (BaseCfgLine.re_search / re_search_children / has_child_with) ---- *)
+Theorem C04_re_search_sound :
+  forall (rxm : nat -> nat -> nat -> bool) (nometa : nat -> nat -> bool)
+  (lit : nat -> nat -> nat -> bool) (md r : nat),
+  ShortcutOK rxm nometa lit md r -> forall l : nat, re_search rxm nometa lit md r l = rxm md r l.
+Proof. exact re_search_sound. Qed.
+Print Assumptions C04_re_search_sound.
+
+Theorem C04_obj_re_search_children_spec :
+  forall (kids : list (list nat)) (rxm : nat -> nat -> nat -> bool) (nometa : nat -> nat -> bool)
+  (lit : nat -> nat -> nat -> bool) (md r : nat) (recurse : bool) (p : nat),
+  ShortcutOK rxm nometa lit md r ->
+  obj_re_search_children kids rxm nometa lit md r recurse p =
+  List.filter (rxm md r) (offspring kids recurse p).
+Proof. exact obj_re_search_children_spec. Qed.
+Print Assumptions C04_obj_re_search_children_spec.
+
+Theorem C04_has_child_with_spec :
+  forall (kids : list (list nat)) (rxm : nat -> nat -> nat -> bool) (nometa : nat -> nat -> bool)
+  (lit : nat -> nat -> nat -> bool),
+  WF kids ->
+  forall (r : nat) (allc : bool) (p : nat),
+  ShortcutOK rxm nometa lit 0 r ->
+  has_child_with kids rxm nometa lit r allc p = true <->
+  (exists x : nat, Below kids allc p x /\ rxm 0 r x = true).
+Proof. exact has_child_with_spec. Qed.
+Print Assumptions C04_has_child_with_spec.
+
+(* ---- a strictly ascending result is determined by its set of members ---- *)
+Theorem C04_sorted_lt_unique :
+  forall l1 l2 : list nat,
+  Sorted.StronglySorted lt l1 ->
+  Sorted.StronglySorted lt l2 -> (forall x : nat, List.In x l1 <-> List.In x l2) -> l1 = l2.
+Proof. exact sorted_lt_unique. Qed.
+Print Assumptions C04_sorted_lt_unique.
